@@ -12,7 +12,7 @@
    Histories are arbitrary operation lists: [run T I D F G M ops st]. *)
 From Coq Require Import List Bool NArith Permutation.
 Import ListNotations.
-From Verif Require Import PsbtModel PsbtLemmas PsbtReach PsbtAtomic PsbtIdem PsbtIdemOld PsbtValid PsbtOrder PsbtUpdate PsbtPkh PsbtExamples.
+From Verif Require Import PsbtModel PsbtLemmas PsbtReach PsbtAtomic PsbtIdem PsbtIdemOld PsbtValid PsbtOrder PsbtUpdate PsbtPkh PsbtTimelock PsbtExamples.
 
 (* ---- never alters inputs that are already final *)
 Theorem C14_final_monotone : forall T I D F G M (ops : list op) (st : psbt) (i : nat) (a : pinput),
@@ -328,3 +328,34 @@ Example C14_resolve_pkh_example :
   resolve_pkh pkh_of (set_bip32 a [(6%N, 9%N)]) 105%N = Some 5%N /\
   resolve_pkh pkh_of a 106%N = None.
 Proof. exact resolve_pkh_example. Qed.
+
+(* repeated updates: C14_update_consistent holds from ANY prior state, so after the last
+   successful update every origin of that descriptor's keys is that descriptor's
+   (BTreeMap::insert overwrites); concretely, in both orders and over a stale record: *)
+Example C14_update_twice_example :
+  let a := mkIn None (Some (mkTxOut 1%N 7%N)) [] None None None [] None None [] [] [] [] None [] [] [] None None [] [] in
+  let st := mkPsbt 1%N 1 [a] in
+  let r := run ex_try ex_interp ex_desc2 ex_flag ex_flag ex_mall in
+  map i_bip32 (p_inputs (r [Update 0 0%N; Update 0 1%N] st)) = [[(1%N, 3%N)]] /\
+  map i_bip32 (p_inputs (r [Update 0 1%N; Update 0 0%N] st)) = [[(1%N, 2%N)]] /\
+  map i_taporigins (p_inputs (r [Update 0 2%N; Update 0 3%N] st)) = [[(1%N, 30%N); (4%N, 31%N)]] /\
+  map i_taporigins (p_inputs (r [Update 0 3%N; Update 0 2%N] st)) = [[(1%N, 20%N); (4%N, 21%N)]] /\
+  map i_taporigins (p_inputs (r [AddTapOrigin 0 1%N 99%N; Update 0 2%N] st)) = [[(1%N, 20%N); (4%N, 21%N)]].
+Proof. exact update_twice_example. Qed.
+
+(* ---- the satisfier's time-lock answers are BIP65 / BIP68+112 on (version, nLockTime, THIS
+   input's nSequence); tabulated against PsbtInputSatisfier::check_after / check_older *)
+Theorem C14_check_after_is_bip65 : forall lock_time seq n,
+  psbt_check_after lock_time seq n = negb (bip65_fails lock_time seq n).
+Proof. exact psbt_check_after_is_bip65. Qed.
+Print Assumptions C14_check_after_is_bip65.
+
+Theorem C14_check_older_is_bip112 : forall version seq n,
+  psbt_check_older version seq n = negb (bip112_fails version seq n).
+Proof. exact psbt_check_older_is_bip112. Qed.
+Print Assumptions C14_check_older_is_bip112.
+
+Example C14_check_older_versions :
+  (forall seq n, psbt_check_older 1 seq n = false) /\ psbt_check_older 3 10 10 = true /\
+  (forall lock_time n, psbt_check_after lock_time seq_final n = false).
+Proof. exact (conj check_older_version_1 (conj (proj1 check_older_version_3) check_after_own_sequence)). Qed.
